@@ -63,8 +63,8 @@ def gen_documents(ctx, n):
     return docs
 
 
-def params_for(method, line, ch):
-    td = {"textDocument": {"uri": URI}}
+def params_for(method, line, ch, uri=URI):
+    td = {"textDocument": {"uri": uri}}
     if method in ("foldingRange", "semanticTokens/full"):
         return td
     if method == "formatting":
@@ -119,12 +119,12 @@ def surrogate_edits(rng, text, k):
     return out
 
 
-def session(exe, text, edits, seed, per_method=3, timeout=20.0, raw_edits=()):
+def session(exe, text, edits, seed, per_method=3, timeout=20.0, raw_edits=(), server_args=()):
     """opens text, fires all request kinds, applies the edits (each followed by requests again), shuts down.
     returns dict(ok, problem, transcript)"""
     import random
     rng = random.Random(seed)
-    s = lspclient.Server(exe)
+    s = lspclient.Server(exe, args=server_args)
     sent = []
     try:
         s.initialize()
@@ -160,6 +160,12 @@ def session(exe, text, edits, seed, per_method=3, timeout=20.0, raw_edits=()):
 
         bad = collect(fire())
         if bad:
+            return bad
+        # every request kind for a document the server has never seen: an answer (null / empty), not silence
+        ids = [(s.request_async("textDocument/" + m, params_for(m, 0, 1, "file:///never-opened.spl"), rid=next_rid()), m, 0, 1) for m in METHODS]
+        bad = collect(ids)
+        if bad:
+            bad["unknown_document"] = True
             return bad
         version = 2
         for cs, ce, ins in edits:
@@ -288,17 +294,29 @@ def run(ctx):
         t = rng.choice(astral)
         jobs.append((t, [], ctx.seed * 104729 + j, 1, 20.0, surrogate_edits(rng, t, rng.randint(1, 3))))
 
+    # the same with the server's own logging switched on (`--log FILE`: every message and table is pretty-printed)
+    import tempfile
+    logdir = tempfile.mkdtemp(prefix="c02log_", dir=common.WORK)
+    log_jobs = [(picks[i][1], [], ctx.seed * 31 + i, 2, 20.0, (), ("--log", os.path.join(logdir, "s%d.log" % i), "--stdio"))
+                for i in rng.sample(range(len(picks)), min(len(picks), 12 if ctx.thorough() else 4))]
+    jobs += log_jobs
+
     def one(job):
         return session(exe, *job)
 
     with ThreadPoolExecutor(10) as ex:
         res = list(ex.map(one, jobs))
+    log_bytes = sum(os.path.getsize(os.path.join(logdir, f)) for f in os.listdir(logdir))
+    import shutil
+    shutil.rmtree(logdir, ignore_errors=True)
+    ctx.cov["server_log_bytes_written"] = log_bytes
     sess_bad = []
     for job, r in zip(jobs, res):
         if r.get("ok"):
             continue
         # no alarms from timing: must reproduce in three fresh processes
-        again = [session(exe, job[0], job[1], job[2], timeout=40.0, raw_edits=(job[5] if len(job) > 5 else ())) for _ in range(3)]
+        again = [session(exe, job[0], job[1], job[2], timeout=40.0, raw_edits=(job[5] if len(job) > 5 else ()),
+                         server_args=(job[6] if len(job) > 6 else ())) for _ in range(3)]
         if all(not a.get("ok") for a in again):
             sess_bad.append((job, again[0]))
     known_sess = 0
@@ -322,6 +340,7 @@ def run(ctx):
         if len([1 for v in ctx.violations]) < 4:
             ctx.violation(dict(kind="oracle", property="C02", what=r.get("problem"), text=job[0], edits=job[1], seed=job[2],
                                raw_edits=[list(e) for e in job[5]] if len(job) > 5 else [],
+                               server_args=list(job[6]) if len(job) > 6 else [],
                                last_text=r.get("text"), method=r.get("method"), position=r.get("position")))
     if not ctx.violations:
         if judge is None:
@@ -354,7 +373,8 @@ def run(ctx):
         "history_panics_predicted_by_model": known_panics,
         "binary_sessions": len(jobs),
         "binary_requests": sum((len(j[1]) + 1) * (10 * 7 + 3) for j in jobs),
-        "sessions_with_edits_inside_surrogate_pairs": sum(1 for j in jobs if len(j) > 5),
+        "sessions_with_edits_inside_surrogate_pairs": sum(1 for j in jobs if len(j) > 5 and j[5]),
+        "sessions_with_server_logging": len(log_jobs),
         "traces_validated_against_impl": len(docs) + len(hl),
         "kernel_judge_cases": nk,
         "correspondence_mismatches": len(mism) + len(kfail) + len(hmism),
@@ -388,6 +408,7 @@ def replay(ctx, path):
         print(exe + ":", o[:300])
         return 1 if (o.split()[0] != "0" or " 1" == o[-2:]) else 0
     exe, _ = common.build_server()
-    res = session(exe, r["text"], [tuple(e) for e in r.get("edits", [])], r.get("seed", 1), raw_edits=[tuple(e) for e in r.get("raw_edits", [])])
+    res = session(exe, r["text"], [tuple(e) for e in r.get("edits", [])], r.get("seed", 1), raw_edits=[tuple(e) for e in r.get("raw_edits", [])],
+                  server_args=tuple(r.get("server_args", [])))
     print(res)
     return 0 if res.get("ok") else 1
